@@ -88,6 +88,21 @@ def _dedupe(xs):
     return out
 
 
+TRIPLE_ALPHABET = ["C=CO", "C=C[O-]", "CC(O)(O)C", "CC(O)(OC)C", "[O-]C=CC", "CC([O-])(OC)C"]
+
+
+def bracket_spellings(smiles):
+    out = [universe.explicit_h_spelling(smiles), universe.kekule_spelling(smiles)]
+    out += universe.mapped_spellings(smiles)[:1]
+    m = Chem.MolFromSmiles(smiles)
+    for a in m.GetAtoms():
+        if a.GetSymbol() in ("C", "O") and a.GetIdx() < 6:
+            mm = Chem.Mol(m)
+            mm.GetAtomWithIdx(a.GetIdx()).SetIsotope(13 if a.GetSymbol() == "C" else 18)
+            out.append(Chem.MolToSmiles(mm))
+    return [s for s in out if s and Chem.MolFromSmiles(s) is not None]
+
+
 def input_space(tier):
     """{family: [input SMILES]} (deterministic, simplest first)"""
     fam = {}
@@ -99,6 +114,11 @@ def input_space(tier):
     assert all(lists)
     fam["series"] = _dedupe(s for m in _dedupe(lists) for s in universe.rooted_spellings(m))
     fam["pairs"] = [a + "." + b for a in PAIR_ALPHABET for b in PAIR_ALPHABET]
+    # explicit-hydrogen, kekulised, atom-mapped and isotope-labelled spellings of the
+    # molecules that carry a convertible group (hydrogen counts written in brackets)
+    fam["bracket-spellings"] = _dedupe(
+        s for m in _dedupe(lists) + base[:400] for s in bracket_spellings(m))
+    fam["triples"] = [a + "." + b + "." + c for a in TRIPLE_ALPHABET for b in TRIPLE_ALPHABET for c in TRIPLE_ALPHABET]
     if tier == "thorough":
         big = _dedupe(universe.U(["C", "O"], 6) + universe.U(["C", "N", "O"], 5))
         fam["universe-large"] = _dedupe(
